@@ -208,7 +208,7 @@ def run(prop, tier, seed, jobs):
     allv = violations + gviol + msan_fail
     cov = {
         "evaluations": evals, "distinct_nontrivial": corpus_nt + agg["distinct"],
-        "rule": "(i) libFuzzer -fork=%d over the structured target (3 header bytes select option combination, entry point incl. file variants via memfd, buffer kind/size, chunk fitting, start offset; rest is the text): seeded corpus + dictionary for %d s, empty corpus without dictionary for %d s; (ii) grammar mutation: valid pool lines with 1-3 structural mutations (append up to 8 operands, lengthen to 90-300 chars, 13-20 char mnemonics, 5-8 char register-like tokens, bracket runs, sign/digit runs, random bytes 1..255, keyword runs, span deletion, line duplication) through plain/fitting/counting on external buffers of 0..5000 bytes and the internal buffer; (iii) MemorySanitizer replay of the final corpora with a pure-C driver. Non-trivial = the text has a mnemonic-like token followed by a blank and an operand (reaches the operand tokenizer); distinct = distinct final-corpus entries satisfying that + distinct mutated lines." % (jobs, total * 3 // 4, total // 4),
+        "rule": "(i) libFuzzer -fork=%d over the structured target (3 header bytes select option combination, entry point incl. file variants via memfd, buffer kind/size, chunk fitting, start offset; rest is the text): seeded corpus + dictionary for %d s, empty corpus without dictionary for %d s; (ii) grammar mutation: valid pool lines with 1-3 structural mutations (append up to 8 operands, lengthen to 90-300 chars, 13-20 char mnemonics, 5-8 char register-like tokens, bracket runs, sign/digit runs, random bytes 1..255, keyword runs, span deletion, line duplication) through plain/fitting/counting on external buffers of 0..5000 bytes and the internal buffer; (iii) MemorySanitizer replay of the final corpora with a pure-C driver. Non-trivial = the text has a mnemonic-like token followed by a blank and an operand (reaches the operand tokenizer); distinct = distinct final-corpus entries satisfying that + distinct mutated lines. For every other input the text handed to the const char * entry points lies in read-only memory whose NUL is the last byte in front of an inaccessible page (fuzz target and grammar part)." % (jobs, total * 3 // 4, total // 4),
         "samples": samples,
         "libfuzzer": {"seeded": {k: s1[k] for k in ("execs", "cov", "ft")}, "empty": {k: s2[k] for k in ("execs", "cov", "ft")}, "seed_inputs": nseeds, "final_corpus_files": len(files), "seed_replay_ok": replay_ok},
         "grammar": {"evaluations": agg["evaluations"], "classes": agg["classes"]},
